@@ -441,6 +441,9 @@ func discardedPure(c *core.Ctx, fns []*ssa.Function) {
 			n++
 			refs := call.Referrers()
 			if refs == nil || len(*refs) == 0 {
+				if core.InExpandedHelper(call.Pos()) {
+					return // computed by an expanded helper for a result this caller does not use
+				}
 				c.Bad("discarded:"+core.FuncName(fn)+":"+core.ModName(name), call.Pos(), fn,
 					"result of pure function "+name+" is used", "result discarded: the call has no effect")
 			}
